@@ -343,6 +343,16 @@ fn interp(
                 };
                 notes.push(format!("rngk=[{}]", ks.iter().map(|k| hex(k)).collect::<Vec<_>>().join(",")));
             }
+            "rngv" => {
+                // Storage::range_values on the contract's (prefixed) storage
+                let (s, e) = (unhex_opt(a(1)), unhex_opt(a(2)));
+                let o = if a(3) == "desc" { Order::Descending } else { Order::Ascending };
+                let vs: Vec<Vec<u8>> = match &store {
+                    Store::Rw(st) => st.range_values(s.as_deref(), e.as_deref(), o).collect(),
+                    Store::Ro(st) => st.range_values(s.as_deref(), e.as_deref(), o).collect(),
+                };
+                notes.push(format!("rngv=[{}]", vs.iter().map(|k| hex(k)).collect::<Vec<_>>().join(",")));
+            }
             "attr" => resp = resp.add_attribute(pdec(a(1)), pdec(a(2))),
             "ev" => {
                 let mut ev = Event::new(pdec(a(1)));
